@@ -12,12 +12,17 @@ def gen_scenario(rng, crash):
     """A short payment scenario (send / forward over 3 nodes / receive / claim / fail, sync and async
     persistence, disconnections) in which node `crash` will be restarted. Returns (mode, ops)."""
     relaxed = rng.chance(1, 4)
+    family = rng.below(10)
+    if family < 3:
+        return ("relaxed" if relaxed else "strict"), gen_collide(rng, crash)
+    if family < 5:
+        return ("relaxed" if relaxed else "strict"), gen_closed_claim(rng, crash)
     ops = []
     flavour = rng.below(4)
     npay = rng.range(1, 3)
     # amounts stay above the dust limit: a dust HTLC on a channel that has to be closed is burnt to fees whatever the
     # restart does (the recipient may hold the preimage while the sender sees the HTLC fail) — not C10's subject
-    routes = [(0, 2), (2, 0), (0, 1), (1, 2), (2, 1), (1, 0), (0, 2)]
+    routes = [(0, 2), (2, 0), (0, 1), (1, 2), (2, 1), (1, 0), (0, 3), (3, 2), (1, 3), (3, 1), (2, 3)]
     for _ in range(npay):
         a, b = rng.choice(routes)
         ops.append("send %d %d %d" % (a, b, rng.choice([1000000, 3000000, 20000000])))
@@ -27,8 +32,8 @@ def gen_scenario(rng, crash):
             for _ in range(rng.range(2, 8)):
                 ops.append("dany %d" % rng.below(4))
         ops.append("pmode %d async" % crash)
-        for n in range(3):
-            if n != crash and rng.chance(1, 3):
+        for n in range(4):
+            if n != crash and rng.chance(1, 4):
                 ops.append("pmode %d async" % n)
     p_complete = rng.choice([4, 8, 14])
     length = rng.range(18, 40)
@@ -41,27 +46,88 @@ def gen_scenario(rng, crash):
         elif r < 55:
             ops.append("fwdany %d" % rng.below(3))
         elif r < 65:
-            ops.append("claim %d %d" % (rng.below(3), rng.below(2)))
+            ops.append("claim %d %d" % (rng.below(4), rng.below(2)))
         elif r < 68:
-            ops.append("fail %d %d" % (rng.below(3), rng.below(2)))
+            ops.append(rng.choice(["fail %d %d" % (rng.below(4), rng.below(2)), "evhold %d on" % rng.below(4), "evhold %d off" % rng.below(4),
+                                   "fc %d %d" % (rng.below(4), rng.below(3))]))
         elif r < 80:
             ops.append("cany %d" % rng.below(8))
         elif r < 84:
-            ops.append("pmode %d async" % rng.below(3))
+            ops.append("pmode %d async" % rng.below(4))
         elif r < 90:
-            a, b = rng.choice([(0, 2), (2, 0), (0, 1), (1, 2), (2, 1), (1, 0)])
+            a, b = rng.choice(routes)
             ops.append("send %d %d %d" % (a, b, rng.choice([1000000, 3000000, 2000000])))
         elif r < 93:
-            a, b = rng.choice([(0, 1), (1, 2)])
+            a, b = rng.choice([(0, 1), (1, 2), (1, 3)])
             ops.append("disc %d %d" % (a, b))
         elif r < 97:
-            a, b = rng.choice([(0, 1), (1, 2)])
+            a, b = rng.choice([(0, 1), (1, 2), (1, 3)])
             ops.append("reconn %d %d" % (a, b))
         elif relaxed:
-            ops.append("pnext %d %d" % (rng.below(3), rng.range(1, 2)))
+            ops.append("pnext %d %d" % (rng.below(4), rng.range(1, 2)))
         else:
-            ops.append("completeall %d" % rng.below(3))
+            ops.append("completeall %d" % rng.below(4))
     return ("relaxed" if relaxed else "strict"), ops
+
+
+def _run_to_claimable(ops, n=26):
+    for i in range(n):
+        ops.append("dany 0")
+        if i % 3 == 2:
+            ops.append("fwdany 0")
+    ops += ["fwdany 0", "dany 0", "dany 0", "dany 0", "dany 0", "fwdany 0"]
+
+
+def gen_collide(rng, crash):
+    """Two inbound channels into the hub whose HTLC ids collide (ids start at 0 on every channel), one HTLC already
+    forwarded over a channel that is force-closed before the restart, the other still queued in the manager
+    (pending forward / pending receive, forwards not processed yet) when the snapshot is taken."""
+    leaves = [0, 2, 3]
+    for i in range(2, 0, -1):
+        j = rng.below(i + 1)
+        leaves[i], leaves[j] = leaves[j], leaves[i]
+    src1, dst1, src2 = leaves  # HTLC1: src1 -> hub -> dst1 (forwarded, then hub<->dst1 closed); HTLC2: src2 -> hub -> ...
+    ops = ["send %d %d %d" % (src1, dst1, rng.choice([1000000, 3000000]))]
+    # add + commitment dance on the inbound channel, forward, dance on the outbound channel (HTLC1 committed at dst1)
+    for i in range(rng.range(12, 20)):
+        ops.append("dany 0")
+        if i in (5, 6, 9):
+            ops.append("fwd 1")
+    # HTLC2 reaches the hub but is NOT forwarded yet (no fwd): same htlc id 0 on a different inbound channel
+    dst2 = rng.choice([src1, 1, dst1])
+    ops.append("send %d %d %d" % (src2, dst2, rng.choice([1000000, 2000000])))
+    ops += ["dany 0"] * rng.range(4, 7)
+    if rng.chance(1, 2):
+        ops.append("send %d %d %d" % (src1, rng.choice([src2, 1]), 2000000))
+        ops += ["dany 0"] * rng.range(3, 6)
+    # the channel HTLC1 went out over is closed before the restart
+    closer = rng.choice([1, dst1])
+    ops.append("fc %d %d" % (closer, {0: 0, 2: 1, 3: 2}[dst1] if closer == 1 else 0))
+    ops += ["dany 0"] * rng.range(0, 3)
+    for _ in range(rng.range(0, 6)):
+        ops.append(rng.choice(["dany 0", "fwdany 0", "claim %d 0" % dst1, "dany 1", "cany 0"]))
+    return ops
+
+
+def gen_closed_claim(rng, crash):
+    """A payment sent (or forwarded) by the restarting node is claimed by the recipient while the channel it went over
+    is (or gets) closed: PaymentSent / PaymentForwarded are regenerated from the closed channel's monitor after the
+    restart; used with failing event handlers and a second crash before the manager is rewritten."""
+    peer = rng.choice([0, 2, 3] if crash == 1 else [1])
+    dst = peer if crash == 1 else rng.choice([x for x in (0, 2, 3) if x != crash] + [1])
+    ops = ["send %d %d %d" % (crash, dst, rng.choice([1000000, 3000000]))]
+    if rng.chance(1, 2):
+        other = rng.choice([x for x in (0, 2, 3) if x != crash])
+        ops.append("send %d %d %d" % (other, crash if rng.chance(1, 2) else rng.choice([y for y in (0, 1, 2, 3) if y != other]), 2000000))
+    _run_to_claimable(ops, rng.range(14, 24))
+    ops.append("claim %d 0" % dst)
+    ops += ["dany 0"] * rng.range(1, 4)
+    first = peer if crash == 1 else 1
+    idx = {0: 0, 2: 1, 3: 2}[first] if crash == 1 else 0
+    ops.append("fc %d %d" % (crash, idx) if rng.chance(2, 3) else "dany 0")
+    for _ in range(rng.range(2, 10)):
+        ops.append(rng.choice(["dany 0", "dany 1", "fwdany 0", "cany 0", "claim %d 0" % dst]))
+    return ops
 
 
 def probe_line(mode, ops, crash):
@@ -85,6 +151,9 @@ def enumerate_trials(rng, mode, ops, per_point, crash, event_steps=()):
         combos.append((0, "mix%d" % rng.below(1000), 0, 1))
         combos.append((min(k, 2), "mix%d" % rng.below(1000), 0, 1))
         combos.append((min(k, rng.range(0, 6)), "mix%d" % rng.below(1000), 0, 0))
+        # second crash BEFORE the manager is rewritten (the same stale bytes again), with and without lag
+        combos.append((0, "max", 0, 2))
+        combos.append((min(k, rng.range(1, 8)), "max", 0, 2))
         combos = sorted(set(combos))
         if per_point and len(combos) > per_point:
             # always keep the two extremes (and the pending-events snapshot where there are events), sample the rest
@@ -96,7 +165,15 @@ def enumerate_trials(rng, mode, ops, per_point, crash, event_steps=()):
                 keep.append(rest.pop(rng.below(len(rest))))
             combos = keep
         for (lag, mon, pre, rec) in combos:
-            trials.append("%s crash=%d k=%d lag=%d mon=%s pre=%d recrash=%d ; %s" % (mode, crash, k, lag, mon, pre, rec, " ; ".join(ops)))
+            path = "legacy" if rng.chance(1, 2) else "recon"
+            # the application's event handler fails (Err(ReplayEvent)) for one persistent event kind during the
+            # first recovery: always together with a second crash on the stale manager, sometimes otherwise
+            evfail = ""
+            if rec == 2 or rng.chance(1, 5):
+                evfail = rng.choice(["PaymentSent", "PaymentFailed", "PaymentForwarded", "PaymentClaimed", "PaymentPathSuccessful",
+                                     "PaymentSent,PaymentPathSuccessful", "ChannelClosed", "PaymentClaimable"])
+            trials.append("%s crash=%d k=%d lag=%d mon=%s pre=%d recrash=%d path=%s evfail=%s ; %s" % (
+                mode, crash, k, lag, mon, pre, rec, path, evfail, " ; ".join(ops)))
     return trials
 
 
@@ -137,7 +214,8 @@ def run_harness(bin_path, lines, tmpdir, tag, jobs=16, timeout=1700):
 def judge(r):
     """Returns (violations, stats) for one trial result."""
     V = []
-    st = {"stale_channels": 0, "resumed_channels": 0, "replayed_updates": 0, "closed_onchain": 0, "payments": 0,
+    st = {"handler_failures": 0, "recrash_stale_manager": 0, "scripted_fc": 0, "path_legacy": 0, "path_recon": 0, "path_default": 0,
+          "stale_channels": 0, "resumed_channels": 0, "replayed_updates": 0, "closed_onchain": 0, "payments": 0,
           "payments_terminal": 0, "exempt_payments": 0, "redelivery_checked": 0, "recrash": 0, "lagged": 0, "inflight_at_crash": 0}
 
     def bad(j, what):
@@ -150,6 +228,11 @@ def judge(r):
     if not r.get("read_ok"):
         bad("read", "ChannelManager read did not succeed")
         return V, st
+    if r.get("evfail"):
+        st["handler_failures"] = len(r.get("handler_refused", []))
+    st["path_" + r.get("path", "default")] = 1
+    if r.get("recrash_mode") == 2:
+        st["recrash_stale_manager"] = 1
     if r.get("recrash"):
         st["recrash"] = 1
         if not r.get("reread_ok"):
@@ -198,6 +281,18 @@ def judge(r):
                     if ups[j] != s["mon"] + 1 + j:
                         bad("replay", "chan %s: update ids after reload not consecutive from the monitor's id %d: %s" % (chan, s["mon"], ups))
                         break
+    # ---- no collateral damage: a channel may close only because its manager state was stale, because the scenario
+    # force-closed it, or as the peer's reaction to either
+    stale_chans = set(s["chan"] for s in r["snap"] if 0 <= s["mgr_latest"] < s["mon"])
+    allowed = stale_chans | set(r.get("scripted_fc", []))
+    if r.get("scripted_fc"):
+        st["scripted_fc"] = 1
+    # a second crash on the same stale manager may find further channels stale: the monitors moved on meanwhile
+    if r.get("recrash_mode") == 2:
+        allowed |= outdated
+    for (n, c, why) in r["closed"]:
+        if c not in allowed:
+            bad("collateral", "node %d closed chan %s (%s) although it was neither stale nor closed by the scenario: an HTLC was lost or left unresolved" % (n, c, why[:90]))
     # ---- payments
     evs = r.get("all_events", [])
     closed_any = bool(r["closed"])
@@ -239,15 +334,15 @@ def judge(r):
             else:
                 bad("events", "event %s %s was pending in the serialized ChannelManager but was not delivered again after the restart" % (name, detail))
     # ---- after everything: nothing stuck when no channel had to go on chain
+    for c in r["final_chans"]:
+        if c["in"] or c["out"]:
+            bad("stuck", "node %d chan %s still has %d/%d HTLCs pending after recovery (and on-chain resolution of closed channels)" % (c["n"], c["chan"], c["in"], c["out"]))
     if not closed_any:
-        for c in r["final_chans"]:
-            if c["in"] or c["out"]:
-                bad("stuck", "node %d chan %s still has %d/%d HTLCs pending after recovery" % (c["n"], c["chan"], c["in"], c["out"]))
         if r["errs"]:
             bad("errors", "protocol errors although no channel was stale: " + "; ".join(r["errs"][:2])[:300])
     return V, st
 
 
 def summarize(r):
-    keep = ("crash", "k", "lag", "mon", "pre", "recrash", "disk", "snap", "read_ok", "after_first", "closed", "phase", "panic")
+    keep = ("crash", "k", "lag", "mon", "pre", "recrash", "recrash_mode", "path", "evfail", "handler_refused", "scripted_fc", "disk", "snap", "read_ok", "after_first", "closed", "phase", "panic")
     return dict((k, r.get(k)) for k in keep if k in r)
